@@ -59,12 +59,12 @@ func (c content) label() string {
 	switch {
 	case c.zeroVertexLoop:
 		return "zero-vertex-loop"
-	case c.fullPolygon:
-		return "full-polygon"
 	case c.nonFinite:
 		return "nonfinite"
 	case c.nonUnit:
 		return "nonunit"
+	case c.fullPolygon:
+		return "full-polygon"
 	case c.invalid:
 		return "invalid"
 	}
